@@ -326,6 +326,7 @@ type engine struct {
 	maxAlloc           int
 	maxLen             int
 	maxPaths           int
+	maxSeconds         int
 	workers            int
 	solverBin          string
 	solverTimeout      int
@@ -418,7 +419,7 @@ func (e *engine) explore(entry *ssa.Function, args []value, qlog func(int) *stri
 			if r.symbolicPath {
 				res.SymPaths++
 			}
-			if e.maxPaths > 0 && res.Paths+len(work) > e.maxPaths {
+			if (e.maxPaths > 0 && res.Paths+len(work) > e.maxPaths) || (e.maxSeconds > 0 && time.Since(t0).Seconds() > float64(e.maxSeconds)) {
 				res.Truncated = true
 			} else {
 				for _, a := range r.alts {
@@ -490,7 +491,7 @@ func (e *engine) explore(entry *ssa.Function, args []value, qlog func(int) *stri
 	}
 	wg.Wait()
 	if res.Truncated {
-		inconcl[fmt.Sprintf("path budget %d exceeded: exploration truncated", e.maxPaths)]++
+		inconcl[fmt.Sprintf("path budget %d / time budget %ds exceeded: exploration truncated", e.maxPaths, e.maxSeconds)]++
 	}
 	for k, n := range inconcl {
 		res.Inconclusive = append(res.Inconclusive, fmt.Sprintf("%s (x%d)", k, n))
